@@ -143,7 +143,7 @@ fn probe(image: Disk, opts: &OptSet, u: &Arc<Universe>, m: &Mutation) -> Value {
             });
         })
         .unwrap();
-    let mut ev = match rx.recv_timeout(Duration::from_secs(30)) {
+    let mut ev = match rx.recv_timeout(Duration::from_secs(240)) {
         Ok(v) => v,
         Err(_) => json!({"open_ok": false, "err": "hang", "hang": true}),
     };
